@@ -1,5 +1,12 @@
-"""C05 - decided with Engine.tla (see engine.py)."""
-import engine
+"""C05 - decided with Engine.tla (see engine.py) and, for the batch hand-off to the store, Batcher.tla (batcher.py)."""
+import json
+import engine, batcher
 LEVEL = engine.LEVEL
-def run(ctx): engine.run_prop(ctx, "C05")
-def replay(ctx, path): engine.replay_prop(ctx, "C05", path)
+def run(ctx):
+    engine.run_prop(ctx, "C05")
+    batcher.part(ctx, "C05")
+def replay(ctx, path):
+    art = json.load(open(path))
+    if art["replay"].get("kind") == "batcher-word":
+        return batcher.replay(ctx, "C05", art)
+    engine.replay_prop(ctx, "C05", path)
